@@ -441,7 +441,11 @@ func uint64ToString(u uint64) string {
 
 type liveAOFSwitches struct {
 	pos int64
+	gen int64 // 1 + rewrite count the position belongs to, 0 if unknown
 }
+
+var errAOFRewritten = errors.New(
+	"aof was rewritten since the position was obtained, try again")
 
 func (s liveAOFSwitches) Error() string {
 	return goingLive
@@ -484,7 +488,7 @@ func (s *Server) cmdAOFMD5(msg *Message) (resp.Value, error) {
 }
 
 // AOF pos
-func (s *Server) cmdAOF(msg *Message) (resp.Value, error) {
+func (s *Server) cmdAOF(msg *Message, client *Client) (resp.Value, error) {
 	if s.aof == nil {
 		return retrerr(errors.New("aof disabled"))
 	}
@@ -523,17 +527,31 @@ func (s *Server) cmdAOF(msg *Message) (resp.Value, error) {
 
 	var ls liveAOFSwitches
 	ls.pos = pos
+	if client != nil && pos > 0 {
+		// a position computed against the log as it was before a rewrite
+		// means nothing in the rewritten log
+		ls.gen = client.aofgen
+		if ls.gen != 0 && ls.gen != s.aofgen.Load()+1 {
+			return retrerr(errAOFRewritten)
+		}
+	}
 	return NOMessage, ls
 }
 
-func (s *Server) liveAOF(pos int64, conn net.Conn, rd *PipelineReader, msg *Message) error {
-	s.mu.RLock()
+func (s *Server) liveAOF(pos, gen int64, conn net.Conn, rd *PipelineReader, msg *Message) error {
+	// The file is opened, checked against the rewrite count and registered in
+	// one step: a rewrite swaps the file under the same lock and closes the
+	// registered connections, so none streams a replaced file unnoticed.
+	s.mu.Lock()
+	if gen != 0 && gen != s.aofgen.Load()+1 {
+		s.mu.Unlock()
+		return errAOFRewritten
+	}
 	f, err := os.Open(s.aof.Name())
-	s.mu.RUnlock()
 	if err != nil {
+		s.mu.Unlock()
 		return err
 	}
-	s.mu.Lock()
 	s.aofconnM[conn] = f
 	s.mu.Unlock()
 	defer func() {
